@@ -2,6 +2,7 @@ package main
 
 import (
 	"fmt"
+	"os"
 	"go/constant"
 	"go/types"
 	"math/big"
@@ -48,6 +49,9 @@ func (e *Exec) baseEnv(fr *Frame, st *State) *SpecEnv {
 		if v, ok := fr.vals[fv]; ok {
 			env.vars["&"+fv.Name()] = v
 		}
+	}
+	if os.Getenv("GOVC_DBG") != "" {
+		fmt.Fprintln(os.Stderr, "baseEnv", fr.fn.Name(), len(fr.debugVals))
 	}
 	for k, v := range fr.debugVals {
 		if _, clash := env.vars[k]; !clash {
@@ -324,6 +328,13 @@ func (env *SpecEnv) evalIdent(name string) (Val, error) {
 		}
 		return Val{T: T, S: e.heapGet(env.st, "X:"+name, scalarSort(T))}, nil
 	}
+	if os.Getenv("GOVC_DBG") != "" {
+		var ks []string
+		for k := range env.vars {
+			ks = append(ks, k)
+		}
+		fmt.Fprintln(os.Stderr, "evalIdent miss", name, ks)
+	}
 	if env.pkg != nil {
 		return env.evalPkgMember(env.pkg, name)
 	}
@@ -415,6 +426,9 @@ func (env *SpecEnv) selectField(a Val, name string) (Val, error) {
 			cur = e.loadField(env.st, cur.S, ST, idx)
 			cur.T = structOf(ST).Field(idx).Type()
 			cur.NN = true
+			if !reBound.MatchString(strings.Join(cur.leaves(), ",")) {
+				e.assumeRefsOld(cur, e.pcNow, env.st.alloc)
+			}
 		} else if s := structOf(cur.T); s != nil {
 			cur = cur.F[idx]
 			cur.T = s.Field(idx).Type()
@@ -442,9 +456,9 @@ func (env *SpecEnv) index(a, i Val) (Val, error) {
 	case *types.Slice:
 		idx := e.toBV64(i)
 		if isAggregate(u.Elem()) {
-			return e.loadAt(env.st, e.elemRef(u.Elem(), a.sBase(), app("bvadd", a.sOff(), idx)), u.Elem()), nil
+			return e.loadAt(env.st, e.elemRef(u.Elem(), a.sBase(), bvAdd(a.sOff(), idx)), u.Elem()), nil
 		}
-		return e.loadAddr(env.st, &Addr{Kind: aElem, T: u.Elem(), Ref: a.sBase(), Idx: app("bvadd", a.sOff(), idx), Key: "E:" + typeKey(u.Elem())}), nil
+		return e.loadAddr(env.st, &Addr{Kind: aElem, T: u.Elem(), Ref: a.sBase(), Idx: bvAdd(a.sOff(), idx), Key: "E:" + typeKey(u.Elem())}), nil
 	case *types.Pointer:
 		if arr, ok := u.Elem().Underlying().(*types.Array); ok {
 			return env.index(e.loadAt(env.st, a.S, arr), i)
@@ -498,7 +512,7 @@ func (env *SpecEnv) sliceOf(a Val, lo, hi *Val) (Val, error) {
 		if hi != nil {
 			h = e.toBV64(*hi)
 		}
-		return mkSlice(a.T, a.sBase(), app("bvadd", a.sOff(), l), app("bvsub", h, l), app("bvsub", a.sCap(), l)), nil
+		return mkSlice(a.T, a.sBase(), bvAdd(a.sOff(), l), bvSub(h, l), bvSub(a.sCap(), l)), nil
 	case *types.Basic:
 		l, h := zero, app("slen", a.S)
 		if lo != nil {
@@ -940,7 +954,7 @@ func (env *SpecEnv) same(a, b Val) (Val, error) {
 			}
 			arr := e.heapGet(env.st, elemKey(el, 0), arrSort(sRef, arrSort(sBV64, leafSorts(el)[0])))
 			// NB: which state? the one of the enclosing old()/current context
-			return func(i string) string { return sel(sel(arr, v.sBase()), app("bvadd", v.sOff(), i)) }, v.sLen(), nil
+			return func(i string) string { return sel(sel(arr, v.sBase()), bvAdd(v.sOff(), i)) }, v.sLen(), nil
 		case scalarSort(v.T) == sStr:
 			return func(i string) string { return app("sat", v.S, i) }, app("slen", v.S), nil
 		}
@@ -1016,6 +1030,21 @@ func (env *SpecEnv) havocLoc(x *SExpr, st *State) error {
 			st.heap[k] = e.fresh("Hmod_"+k, srt)
 		} else {
 			e.pendingHavoc(st, k)
+		}
+		return nil
+	}
+	if x.Op == "call" && x.Args[0].Op == "id" && x.Args[0].Tok == "entries" && len(x.Args) == 2 {
+		// all entries of one map
+		m, err := env.eval(x.Args[1])
+		if err != nil {
+			return err
+		}
+		for _, k := range mapKeys(m.T) {
+			if srt, known := e.keySort[k]; known {
+				arr := e.heapGet(st, k, srt)
+				_, inner := splitArrSort(srt)
+				e.heapSet(st, k, srt, sto(arr, m.S, e.fresh("mod_map", inner)))
+			}
 		}
 		return nil
 	}
@@ -1304,10 +1333,10 @@ func (env *SpecEnv) applyFold(fd *FoldDecl, args []*SExpr) (Val, error) {
 	}
 	var stepErr error
 	e.once("fold:"+e.pcNow+":"+t, func() {
-		n1 := app("bvsub", n, bvLitI(64, 1))
+		n1 := bvSub(n, bvLitI(64, 1))
 		c := &SpecEnv{e: e, pkg: pkg, vars: map[string]Val{}, st: env.st, old: env.old, depth: env.depth + 1}
 		c.vars[fd.Acc] = Val{T: listType, S: mk(n1)}
-		c.vars[fd.Elem] = Val{T: el, S: sel(arr, app("bvadd", sl.sOff(), n1))}
+		c.vars[fd.Elem] = Val{T: el, S: sel(arr, bvAdd(sl.sOff(), n1))}
 		for i, p := range ps {
 			c.vars[fd.Params[i+1].Name] = p
 		}
